@@ -13,13 +13,13 @@
 (***************************************************************************)
 EXTENDS Naturals, Sequences, FiniteSets, TLC, Json
 
-TopFields  == {"info", "servers", "security", "tags", "externalDocs", "extensions"}
+TopFields  == {"openapi", "info", "servers", "security", "tags", "externalDocs", "extensions"}
 CONSTANT CompFields         \* non-schema component kinds considered by the configuration
 AllCompFields == {"responses", "parameters", "examples", "requestBodies", "headers",
                   "securitySchemes", "links", "callbacks", "extensions"}
 ASSUME CompFields \subseteq AllCompFields
 
-TopValues(f) == CASE f = "info" -> {"v1", "v2"}                       \* required by OpenAPI
+TopValues(f) == CASE f \in {"info", "openapi"} -> {"v1", "v2"}          \* required by OpenAPI (openapi: the version string the base declares)
                   [] f = "servers" -> {"absent", "v1", "v2"}
                   [] OTHER -> {"absent", "v1"}
 
@@ -48,7 +48,7 @@ Programs == {[name |-> "empty",   paths |-> "absent", schemas |-> "absent"],
 NoComponents == [f \in AllComp \cup {"present"} |-> IF f = "present" THEN "no" ELSE "absent"]
 
 DefaultBase == [top |-> [f \in TopFields \cup {"paths"} |->
-                           CASE f = "info" -> "default" [] f = "servers" -> "default" [] OTHER -> "absent"],
+                           CASE f \in {"info", "servers", "openapi"} -> "default" [] OTHER -> "absent"],
                 comp |-> NoComponents]
 
 VARIABLES base, useBase, prog, pc, parts, def
